@@ -59,8 +59,8 @@ Definition pcv_decodes (v : pcv) (bs : list Z) : bool :=
   | PVContentAddress a => match from_bytes dec_content_address bs with Some x => zlist_eqb x a | None => false end
   | PVPredicateAddress c p => match from_bytes dec_predicate_address bs with Some x => zlist_eqb (fst x) c && zlist_eqb (snd x) p | None => false end
   | PVMutation m => match from_bytes dec_mutation bs with Some x => mut_eqb x m | None => false end
-  | PVSolution s => match from_bytes dec_solution bs with Some x => sol_eqb_pc x s | None => false end
-  | PVSolutionSet ss => match from_bytes dec_solution_set bs with Some x => list_eqb sol_eqb_pc x ss | None => false end
+  | PVSolution s => match from_bytes dec_solution_strict bs with Some x => sol_eqb_pc x s | None => false end
+  | PVSolutionSet ss => match from_bytes dec_solution_set_strict bs with Some x => list_eqb sol_eqb_pc x ss | None => false end
   | PVPredicate p => match from_bytes dec_predicate bs with Some x => pred_eqb x p | None => false end
   | PVProgram b => match from_bytes dec_program bs with Some x => zlist_eqb x b | None => false end
   | PVContract c => match from_bytes dec_contract bs with Some x => contract_eqb x c | None => false end
@@ -76,8 +76,8 @@ Definition pcv_accepts (kind : Z) (bs : list Z) : bool :=
   | 0 => match from_bytes dec_content_address bs with Some _ => true | None => false end
   | 1 => match from_bytes dec_predicate_address bs with Some _ => true | None => false end
   | 2 => match from_bytes dec_mutation bs with Some _ => true | None => false end
-  | 3 => match from_bytes dec_solution bs with Some _ => true | None => false end
-  | 4 => match from_bytes dec_solution_set bs with Some _ => true | None => false end
+  | 3 => match from_bytes dec_solution_strict bs with Some _ => true | None => false end
+  | 4 => match from_bytes dec_solution_set_strict bs with Some _ => true | None => false end
   | 5 => match from_bytes dec_predicate bs with Some _ => true | None => false end
   | 6 => match from_bytes dec_program bs with Some _ => true | None => false end
   | 7 => match from_bytes dec_contract bs with Some _ => true | None => false end
